@@ -89,6 +89,7 @@ def gen(rng):
     if vft and rng.random() < 0.08:
         # a vftable block that is not the first statement (rejected today)
         t["vft"]["pos"] = rng.randint(1, len(fields))
+        plain = False
     q = rng.random()
     natural_al = max(maxal, ptr) if len(fields) + vft > 1 else maxal
     if q < 0.5:
